@@ -650,15 +650,37 @@ def main(argv):
     import importlib
     fact_modules = ["translate_facts"] + sorted(f[:-3] for f in os.listdir(HERE)
                                                 if f.startswith("facts_") and f.endswith(".py"))
+    # which Gen files each facts module produced last time (kept in report.json): when a module crashes on a
+    # source shape it was never written for, its files stay as they are on disk -- stale -- and the crash is
+    # reported, so that the checks of the properties depending on them flag a broken obligation instead of
+    # every check dying with an infrastructure error
+    try:
+        modules = json.load(open(os.path.join(out, "report.json"))).get("_modules", {})
+    except (OSError, ValueError):
+        modules = {}
+    crashed = {}
     for mname in fact_modules:
-        mod = importlib.import_module(mname)
-        for fname, ftext, frep in mod.generate(repo):
-            if write_if_changed(os.path.join(out, fname), ftext):
-                changed.append(fname)
-            report["facts:" + fname] = frep
+        try:
+            mod = importlib.import_module(mname)
+            files = []
+            for fname, ftext, frep in mod.generate(repo):
+                if write_if_changed(os.path.join(out, fname), ftext):
+                    changed.append(fname)
+                report["facts:" + fname] = frep
+                files.append(fname)
+            modules[mname] = files
+        except Exception:   # a translator bug / unforeseen source shape: contain it
+            import traceback
+            tb = traceback.format_exc().strip().splitlines()
+            crashed[mname] = dict(error=tb[-1][:300], where=" | ".join(t.strip() for t in tb[-7:-1])[:600],
+                                  files=modules.get(mname, []))
+    report["_modules"] = modules
+    if crashed:
+        report["_crashed"] = crashed
     write_if_changed(os.path.join(out, "report.json"), json.dumps(report, indent=1, sort_keys=True) + "\n")
-    print(json.dumps({"changed": changed,
-                      "untranslatable": [k for k, v in report.items() if isinstance(v, dict) and v.get("ok") is False]}))
+    print(json.dumps({"changed": changed, "crashed": crashed,
+                      "untranslatable": [k for k, v in report.items()
+                                         if not k.startswith("_") and isinstance(v, dict) and v.get("ok") is False]}))
 
 
 if __name__ == "__main__":
